@@ -168,6 +168,9 @@ def c_docstring(P):
     sd, s_none, s_doc = doc("stub")
     o.fields["docstring"], st.fields["docstring"] = od, sd
     truthy = z3.Function("DOC_TRUTHY", IntS, BoolS)
+    # `has_docstrings` (plural) also looks at the members: whether some member is documented is independent of the object's own docstring
+    MEMBER_DOC = z3.Function("SOME_MEMBER_HAS_A_DOCSTRING", IntS, BoolS)
+    P.attr_hooks[("Object", "has_docstrings")] = lambda P_, x: SBool(z3.Or(zbool(P_.getattr(x, "has_docstring")), MEMBER_DOC(x.ident)))
     kind, res = outcome(P, lambda: call(P, MG + "_merge_stubs_docstring", o, st))
     P.prove("never_raises", kind == "ok")
     runtime_has = z3.And(z3.Not(o_none), truthy(o_doc.ident))
